@@ -423,6 +423,14 @@ theorem rleLargestLe_spec (items : List Item) (q : Int) (hs : (rleValues items).
         have h2 := hC _ (List.getElem_mem hj) x hxj
         omega
 
+theorem sum_nonneg_of (l : List Int) (h : ∀ x ∈ l, 0 ≤ x) : 0 ≤ l.sum := by
+  induction l with
+  | nil => simp
+  | cons a l ih =>
+    have := h a (by simp)
+    have := ih (fun x hx => h x (List.mem_cons_of_mem _ hx))
+    simp only [List.sum_cons]; omega
+
 /-! ### LIS `RLEType01` -/
 
 /-- the `(position, frames)` pairs one `RLEItemType01` stands for. -/
